@@ -154,10 +154,14 @@ fn c12_judge(job: &HybJob, out: &RunOut) -> Vec<Complaint> {
             // resident entry at most once per capacity eviction, and not again after it was loaded
             // back from disk (no block is near reclaim in these configurations).
             let evictions = h.leaves.iter().filter(|l| l.reason == 0 && l.key == wr.key && l.ver == wr.ver).count();
-            let loaded_from_disk = h
-                .lookups
-                .iter()
-                .any(|l| l.key == wr.key && matches!(&l.res, LookupRes::Hit { ver, source: 2, .. } if *ver == wr.ver));
+            // Only a load that was answered before the last write of the entry was submitted can have
+            // caused that write (final reads come after every write and prove nothing).
+            let last_write_at = ws.iter().map(|e| e.submitted_at).max().unwrap_or(0);
+            let loaded_from_disk = h.lookups.iter().any(|l| {
+                l.key == wr.key
+                    && l.resp.map(|r| r <= last_write_at).unwrap_or(false)
+                    && matches!(&l.res, LookupRes::Hit { ver, source: 2, .. } if *ver == wr.ver)
+            });
             // Callers coalesced into one origin fetch each hand the fetched entry to the disk tier.
             let fetch_callers = h
                 .lookups
